@@ -50,13 +50,14 @@ def cli(texts):
 
 
 def main():
-    out = sys.stdout
+    # the protocol runs on the binary streams in ASCII; sys.stdout / sys.stdin keep whatever encoding this process inherited
+    out = sys.stdout.buffer
     err = io.StringIO()
     sys.stderr = err
-    for line in sys.stdin:
-        req = json.loads(line)
+    for line in sys.stdin.buffer:
+        req = json.loads(line.decode('ascii'))
         if 'cli' in req:
-            out.write(cli(req['cli']) + '\n')
+            out.write((cli(req['cli']) + '\n').encode('ascii'))
             out.flush()
             continue
         try:
@@ -68,7 +69,7 @@ def main():
             res = hashlib.sha256(code.encode('utf8', 'backslashreplace')).hexdigest()
         except BaseException as e:      # noqa
             res = 'EXC:' + type(e).__name__
-        out.write(res + '\n')
+        out.write((res + '\n').encode('ascii'))
         out.flush()
 
 
